@@ -8,6 +8,7 @@ C18's `all_functions_balanced` over the regenerated skeleton of `CreateTCPConnec
 import TurnModel.Lemmas.ServerInv
 import TurnModel.Lemmas.ServerHandlers
 import TurnModel.Props.C03
+import TurnModel.Gen.Consts
 namespace Turn.C16
 open Turn.Srv
 
@@ -226,5 +227,9 @@ example : (step cfg0 (run cfg0 init hist0).1 (.pipeC2P kd [1, 2, 3])).2 = [.pipe
 set_option maxRecDepth 8000 in
 example : (step cfg0 (run cfg0 init hist0).1 (.msg ⟨0, ⟨⟨false, 7⟩, 7002⟩⟩ 100 (.connBind 4 okCred (.val 0)))).2 =
     [.resp ⟨0, ⟨⟨false, 7⟩, 7002⟩⟩ "ConnectionBind" false 400 4 {}] := by decide
+
+
+/-- regenerated: the ConnectionBind deadline in today's source is 30 seconds -/
+theorem bind_timeout_regenerated : Gen.Consts.allocation_defaultTCPConnectionBindTimeout = 30 * 1000000000 := by decide
 
 end Turn.C16
